@@ -95,6 +95,16 @@ func init() {
 		R := r.R()
 		mode := gen.Pick(R, []string{"SYNC", "ASYNC", "DISABLED", "SYNC", "ASYNC"})
 		in := In{Workload: "ids", Ledgers: []LedgerSpec{{Name: "l", HashLogs: mode}}, Setup: []Req{}, Reqs: []Req{}}
+		if R.Intn(6) == 0 {
+			// no setup: the writers open the ledger while it is initializing and race through the state
+			// tracker (ledger lock, state update, sequence reset); one of them fails after taking its ids
+			for i := 0; i < 3; i++ {
+				in.Reqs = append(in.Reqs, Req{Task: taskName(i), Kind: "send", Src: "world", Dst: fmt.Sprintf("d%d", i), Asset: []string{"USD", "EUR", "GBP"}[i], Amount: "3"})
+			}
+			in.Reqs[1].Src, in.Reqs[1].Amount = "nobody", "5" // refused by the funds check
+			in.SchedSeed = R.Int63n(1 << 30)
+			return runScenario(r, in, true)
+		}
 		two := R.Intn(3) == 0
 		if two {
 			in.Ledgers = append(in.Ledgers, LedgerSpec{Name: "m", HashLogs: gen.Pick(R, []string{"SYNC", "ASYNC"})})
@@ -186,6 +196,21 @@ func init() {
 	workloads["reference"] = func(r *run) error {
 		R := r.R()
 		in := In{Workload: "reference", Ledgers: []LedgerSpec{{Name: "l", HashLogs: gen.Pick(R, []string{"SYNC", "ASYNC"})}}, Setup: []Req{}, Reqs: []Req{}}
+		if R.Intn(4) == 0 {
+			// crossing transfers sharing a reference: the row locks are taken in opposite orders, so one
+			// writer is the deadlock victim, retries (forgeLogRetry) and meets the other's committed reference
+			fund(&in, "", "alice", "USD", "100")
+			fund(&in, "", "bob", "USD", "100")
+			in.Reqs = append(in.Reqs,
+				Req{Task: "a", Kind: "send", Src: "alice", Dst: "bob", Asset: "USD", Amount: "5", Reference: "ref"},
+				Req{Task: "b", Kind: "send", Src: "bob", Dst: "alice", Asset: "USD", Amount: "7", Reference: gen.Pick(R, []string{"ref", "ref", "ref2"})})
+			in.SchedSeed = R.Int63n(1 << 30)
+			if R.Intn(2) == 0 {
+				// both lock their source, then both try the other's row
+				return r.directed(in, []planStep{{"a", "getBalances"}, {"b", "getBalances"}, {"a", "updateVolumes"}, {"b", ""}, {"a", ""}})
+			}
+			return runScenario(r, in, true)
+		}
 		two := R.Intn(3) == 0
 		n := 2 + R.Intn(2)
 		if two {
